@@ -220,8 +220,45 @@ def run(cx):
     if fb is not None:
         r.check(norm(fb) in ("sleep_func or time.sleep", "time.sleep if sleep_func is None else sleep_func", "sleep_func if sleep_func is not None else time.sleep"), "sleep/sleeper=injected-or-time.sleep", (utils, fb), f"sleeper is `{norm(fb)}`")
 
-    # ---- C20-SENSORS -------------------------------------------------------------------------
-    r = cx.rule("C20-SENSORS", "Button.is_pressed samples its signal once, fires on_click under (pressed and not previous) before updating the previous sample; Potentiometer.read / Ultrasonic.measure_distance return the provider's value (or the default) only after the 0..1023 / non-negative range check", floor=10)
+    rule_sensors(cx, "C20-SENSORS")
+
+    # ---- C20-SERIAL --------------------------------------------------------------------------
+    r = cx.rule("C20-SERIAL", "SerialMonitor.write returns str(value) and sends exactly (str(value)+newline).encode('utf-8') once, only on an open port; read validates `emit` before anything else", floor=5)
+    wr = ser.func("SerialMonitor.write")
+    wloc = Locals(wr)
+    rets = [n for n in walk_local(wr) if isinstance(n, ast.Return)]
+    for ret in rets:
+        v = wloc.resolve(ret.value)
+        okv = norm(v) in ("f'{value}'", "str(value)", "format(value)")
+        r.check(okv, "SerialMonitor.write/returns-str(value)", (ser, ret), f"write() returns `{norm(v)}`")
+    sends = [c for c in calls_in(wr) if isinstance(c.func, ast.Attribute) and c.func.attr == "write" and "_serial" in norm(c.func.value)]
+    cc = CallCount(lambda c: c in sends).run_function(wr, (0, 0))
+    ex = exits_of(cc, wr)
+    r.check(bool(ex) and all(e[1] <= 1 for e in ex) and any(e[1] == 1 for e in ex), "SerialMonitor.write/sends-at-most-once", (ser, wr), f"payload sends per path: {ex}")
+    for c in sends:
+        p = wloc.resolve(c.args[0]) if c.args else None
+        txt = norm(p) if p is not None else ""
+        inner = txt
+        for name, d in wloc.defs.items():
+            if len(d) == 1 and isinstance(d[0], ast.expr) and name != "payload":
+                inner = inner.replace(f"({name} ", f"(({norm(d[0])}) ").replace(f"{name} +", f"({norm(d[0])}) +")
+        okp = txt in ("(text + self.newline).encode('utf-8')", "f'{text}{self.newline}'.encode('utf-8')") and norm(wloc.resolve(ast.Name(id="text", ctx=ast.Load()))) in ("f'{value}'", "str(value)")
+        r.check(okp, "SerialMonitor.write/payload=str(value)+newline-utf8", (ser, c), f"payload is `{txt}`")
+        guarded = any(isinstance(a, ast.If) and "is_open" in norm(a.test) and "_serial is not None" in norm(a.test) for a in ser.ancestors(c))
+        r.check(guarded, "SerialMonitor.write/only-on-open-port", (ser, c), "payload is sent without checking that a port is open")
+    rd = ser.func("SerialMonitor.read")
+    body = [s for s in rd.body if not (isinstance(s, ast.Expr) and isinstance(s.value, ast.Constant))]
+    okf = isinstance(body[0], ast.If) and "emit" in norm(body[0].test) and any(isinstance(x, ast.Raise) for x in body[0].body)
+    r.check(okf, "SerialMonitor.read/validates-emit-first", (ser, body[0]), "read() must reject an invalid emit value before touching the port")
+
+
+def rule_sensors(cx, rid):
+    btn = mod("Sensors/Button.py")
+    pot = mod("Sensors/Potentiometer.py")
+    ult = mod("Sensors/Ultrasonic.py")
+    for m in (btn, pot, ult):
+        cx.consulted(m)
+    r = cx.rule(rid, "Button.is_pressed samples its signal once, fires on_click under (pressed and not previous) before updating the previous sample; Potentiometer.read / Ultrasonic.measure_distance return the provider's value (or the default) only after the 0..1023 / non-negative range check", floor=10)
     bc = btn.cls("Button")
     meths = {f.name: f for f in bc.body if isinstance(f, ast.FunctionDef)}
     ip = meths.get("is_pressed")
@@ -309,31 +346,3 @@ def run(cx):
         okf = any("_distance_provider()" in norm(d) for d in vdefs if isinstance(d, ast.expr)) and any("_default_distance" in norm(d) for d in vdefs if isinstance(d, ast.expr))
         r.check(okf, "Ultrasonic.measure_distance/value=provider-or-default", (ult, ret), "returned value must be the provider's value or the default distance")
 
-    # ---- C20-SERIAL --------------------------------------------------------------------------
-    r = cx.rule("C20-SERIAL", "SerialMonitor.write returns str(value) and sends exactly (str(value)+newline).encode('utf-8') once, only on an open port; read validates `emit` before anything else", floor=5)
-    wr = ser.func("SerialMonitor.write")
-    wloc = Locals(wr)
-    rets = [n for n in walk_local(wr) if isinstance(n, ast.Return)]
-    for ret in rets:
-        v = wloc.resolve(ret.value)
-        okv = norm(v) in ("f'{value}'", "str(value)", "format(value)")
-        r.check(okv, "SerialMonitor.write/returns-str(value)", (ser, ret), f"write() returns `{norm(v)}`")
-    sends = [c for c in calls_in(wr) if isinstance(c.func, ast.Attribute) and c.func.attr == "write" and "_serial" in norm(c.func.value)]
-    cc = CallCount(lambda c: c in sends).run_function(wr, (0, 0))
-    ex = exits_of(cc, wr)
-    r.check(bool(ex) and all(e[1] <= 1 for e in ex) and any(e[1] == 1 for e in ex), "SerialMonitor.write/sends-at-most-once", (ser, wr), f"payload sends per path: {ex}")
-    for c in sends:
-        p = wloc.resolve(c.args[0]) if c.args else None
-        txt = norm(p) if p is not None else ""
-        inner = txt
-        for name, d in wloc.defs.items():
-            if len(d) == 1 and isinstance(d[0], ast.expr) and name != "payload":
-                inner = inner.replace(f"({name} ", f"(({norm(d[0])}) ").replace(f"{name} +", f"({norm(d[0])}) +")
-        okp = txt in ("(text + self.newline).encode('utf-8')", "f'{text}{self.newline}'.encode('utf-8')") and norm(wloc.resolve(ast.Name(id="text", ctx=ast.Load()))) in ("f'{value}'", "str(value)")
-        r.check(okp, "SerialMonitor.write/payload=str(value)+newline-utf8", (ser, c), f"payload is `{txt}`")
-        guarded = any(isinstance(a, ast.If) and "is_open" in norm(a.test) and "_serial is not None" in norm(a.test) for a in ser.ancestors(c))
-        r.check(guarded, "SerialMonitor.write/only-on-open-port", (ser, c), "payload is sent without checking that a port is open")
-    rd = ser.func("SerialMonitor.read")
-    body = [s for s in rd.body if not (isinstance(s, ast.Expr) and isinstance(s.value, ast.Constant))]
-    okf = isinstance(body[0], ast.If) and "emit" in norm(body[0].test) and any(isinstance(x, ast.Raise) for x in body[0].body)
-    r.check(okf, "SerialMonitor.read/validates-emit-first", (ser, body[0]), "read() must reject an invalid emit value before touching the port")
